@@ -21,11 +21,12 @@ EXTENDS GeoRef, Json, IOUtils, TLCExt
 Data == JsonDeserialize(IOEnv.TRACE_FILE)
 G == [ul |-> Data.grid.ul, bbox |-> Data.grid.bbox, tw |-> Data.grid.tw, th |-> Data.grid.th, res |-> Data.grid.res,
       sn |-> Data.grid.sn, sd |-> Data.grid.sd, ms |-> Data.grid.ms, thr |-> Data.grid.thr]
-Ext == <<Data.ext[1], Data.ext[2], Data.ext[3], Data.ext[4]>>
+Exts == {<<Data.exts[i][1], Data.exts[i][2], Data.exts[i][3], Data.exts[i][4]>> : i \in 1 .. Len(Data.exts)}
+Bound == <<Data.bound[1], Data.bound[2], Data.bound[3], Data.bound[4]>>
 O3(o) == <<o[1], o[2], o[3]>>
 P4(p) == [gx |-> p[1], gy |-> p[2], fx |-> p[3], fy |-> p[4]]
 
-BadPixels(c) == {k \in 1 .. Len(c.px) : ~ReprojPixelOK(G, Ext, P4(c.at[k]), O3(c.px[k]))}
+BadPixels(c) == {k \in 1 .. Len(c.px) : ~ReprojPixelOK(G, Exts, Bound, P4(c.at[k]), O3(c.px[k]))}
 MapOK(c) == Len(c.px) = c.w * c.h /\ Len(c.at) = c.w * c.h /\ BadPixels(c) = {}
 BadMaps == {i \in 1 .. Len(Data.maps) : ~MapOK(Data.maps[i])}
 R4(r) == <<r[1], r[2], r[3], r[4]>>
